@@ -1925,7 +1925,7 @@ func twoTargetDelete(a, b string) *Stmt {
 // ScanCancel re-runs st with the context failing from the 1st, 2nd, … ctx.Err() call on, until the statement
 // completes; after every cancelled attempt Exec checks that no table and no uncommitted mark changed.
 // Returns (number of cancelled attempts, completed, a law failed).
-func (r *Runner) ScanCancel(st *Stmt, maxAt int64) (int, bool, bool) {
+func (r *Runner) ScanCancel(st *Stmt, maxAt int64, mustComplete bool) (int, bool, bool) {
 	for at := int64(1); at <= maxAt; at++ {
 		out := r.Exec(st, at)
 		r.O.Count("fault:cancel_scan")
@@ -1938,8 +1938,16 @@ func (r *Runner) ScanCancel(st *Stmt, maxAt int64) (int, bool, bool) {
 		if len(out.Failed) > 0 {
 			return int(at), false, true
 		}
+		if n := ErrNum(out.Err); n != query.ErrorContextCanceled && n != query.ErrorContextDone {
+			// the statement fails by itself (a record written twice, a division by a 0 cell): nothing to scan
+			r.O.Count("cancel_scan_natural_error")
+			return int(at), false, false
+		}
 	}
-	r.O.Law("cancel_scan_did_not_complete", map[string]interface{}{"sql": st.SQL, "max_at": maxAt})
+	if mustComplete {
+		r.O.Law("cancel_scan_did_not_complete", map[string]interface{}{"sql": st.SQL, "max_at": maxAt})
+	}
+	r.O.Count("cancel_scan_cut")
 	return int(maxAt), false, false
 }
 
@@ -1965,7 +1973,7 @@ func CancelCorpus(g *hc.Gen, o *hc.Out, root string) {
 		twoTargetDelete("f2", "m1"),
 	}
 	for _, st := range stmts {
-		n, done, failed := r.ScanCancel(st, 5000)
+		n, done, failed := r.ScanCancel(st, 5000, true)
 		o.Count(fmt.Sprintf("corpus_cancel_attempts~%d", n/10*10))
 		if failed || !done {
 			return // one defect, one report
